@@ -76,7 +76,9 @@ class Built:
         if k == "c":
             return int(j[1])
         if k in VIEWS:
-            return getattr(e, k)[j[1]]
+            v = getattr(e, k)[j[1]]
+            v._pview = k                           # the view as written (property-level typing, see `reg_view`)
+            return v
         if k == "v":
             return getattr(e, j[1])
         if k == "neg":
@@ -172,7 +174,7 @@ def view_value(view, raw):
     """value of a register (raw 64-bit content) seen through a view"""
     if view == "r":
         return raw & M64
-    if view == "sr":
+    if view in ("sr", "x"):                        # x: the raw content of a fixed-point register (C02)
         return sx(raw, 64)
     if view == "w":
         return raw & 0xffffffff
@@ -251,7 +253,7 @@ def leaves(j):
     k = j[0]
     if k == "let":
         return leaves(expand(j))
-    if k in ("c", "v") or k in VIEWS:
+    if k in ("c", "v", "d", "x") or k in VIEWS:           # d, x: decimal constants and fixed-point registers of C02
         return [j]
     if k in ("neg", "abs"):
         return leaves(j[1])
@@ -288,17 +290,119 @@ def depth(j):
 
 def width_W(prog, stmt):
     """W of DESIGN §4 C01: 32 if any leaf or the destination is at most 4 bytes wide, else 64"""
-    fm = {n: f for n, f, _ in prog["vars"]}
+    return pwidth([stmt[2]], {n: f for n, f, _ in prog["vars"]}, dest=stmt[1])
 
-    def narrow(l):
-        if l[0] in ("w", "sw"):
-            return True
-        if l[0] == "v":
-            return FSIZE[fm[l[1]]] <= 4
-        if l[0] == "m":
-            return FSIZE[l[1]] <= 4
+
+# ----------------------------------------------------------------------------- property-level typing
+# What an operand's size and signedness ARE is defined by the property text ("each operand taking the value its own
+# size and signedness define"), not by the generator: the oracles take the signedness that decides a precondition
+# (signed range vs unsigned range) or the membership in a known-finding class from HERE, from the program text --
+# never from the `signed` / `long` attributes of the implementation's own objects.  (Taking them from the objects lets
+# a wrong typing in the implementation move the failing inputs outside the precondition or into a known class.)
+SIGNED_VIEWS = ("sr", "sw", "x")          # x: the fixed-point register view of C02 (long, signed)
+NARROW_VIEWS = ("w", "sw")
+
+
+def fmt_signed(f):
+    """lower-case struct formats and the fixed-point format x are signed"""
+    return f == "x" or f.islower()
+
+
+def fold_int(j):
+    """the value of a surface expression that is a plain Python int (int (op) int is folded by Python itself, the
+    generator only ever sees the result), else None; None also where Python raises (the builder reports that)"""
+    k = j[0]
+    if k == "c":
+        return int(j[1])
+    if k == "let":
+        return fold_int(expand(j))
+    if k in ("neg", "abs"):
+        a = fold_int(j[1])
+        return None if a is None else (-a if k == "neg" else abs(a))
+    if k in BINOPS:
+        a, b = fold_int(j[1]), fold_int(j[2])
+        if a is None or b is None:
+            return None
+        try:
+            return BINOPS[k](a, b) if not (k in ("<<", ">>") and b > 4096) else None
+        except (ZeroDivisionError, ValueError):
+            return None
+    return None
+
+
+def psigned(j, fm):
+    """SIGNEDNESS OF AN EXPRESSION AS THE PROPERTY DEFINES IT (fm: variable name -> declared format).
+    Leaves: r / w views and upper-case formats are unsigned; sr / sw / x views, lower-case formats and the format x
+    are signed; a constant is signed iff it is negative (a decimal constant ["d", n] likewise).  A sub-expression of
+    plain Python ints is ONE constant (Python folds it): signed iff its value is negative.  Operators: a result is
+    signed as soon as one operand is, except for four rules that follow from the exact value of the result:
+      neg  signed:   -a is <= 0 for every a >= 0
+      abs  unsigned: |a| >= 0
+      &    signed iff BOTH operands are: a & b >= 0 as soon as one operand is >= 0
+      >>   the signedness of the left operand: a >> n has the sign of a (n is a count in [0, W))"""
+    k = j[0]
+    if k == "let":
+        return psigned(expand(j), fm)
+    if k in VIEWS or k == "x":
+        return k in SIGNED_VIEWS
+    if k == "v":
+        return fmt_signed(fm[j[1]])
+    if k == "d":
+        return j[1] < 0
+    if k == "m":
+        return fmt_signed(j[1])
+    v = fold_int(j)
+    if v is not None:
+        return v < 0
+    if k == "neg":
+        return True
+    if k == "abs":
         return False
-    return 32 if narrow(stmt[1]) or any(narrow(l) for l in leaves(stmt[2])) else 64
+    if k == "&":
+        return psigned(j[1], fm) and psigned(j[2], fm)
+    if k == ">>":
+        return psigned(j[1], fm)
+    return psigned(j[1], fm) or psigned(j[2], fm)
+
+
+def leaf_narrow(l, fm):
+    """the leaf is at most 4 bytes wide (w / sw view, variable or m[...] format of 1, 2 or 4 bytes)"""
+    if l[0] in NARROW_VIEWS:
+        return True
+    if l[0] == "v":
+        return fm[l[1]] != "x" and FSIZE[fm[l[1]]] <= 4
+    if l[0] == "m":
+        return FSIZE[l[1]] <= 4
+    return False
+
+
+def pnarrow(j, fm):
+    """the expression mentions a value of at most 4 bytes (declared sizes): such a leaf makes W = 32"""
+    return any(leaf_narrow(l, fm) for l in leaves(j))
+
+
+def pwidth(exprs, fm, dest=None):
+    """W of the property text: 32 if any operand (or the destination) is at most 4 bytes wide, else 64"""
+    if dest is not None and leaf_narrow(dest, fm):
+        return 32
+    return 32 if any(pnarrow(e, fm) for e in exprs) else 64
+
+
+def reg_view(v):
+    """the view (r sr w sw x) a register leaf was WRITTEN in: the builder records it on the object it gets from the real
+    register array; registers the library creates itself carry no record and are described by their own flags"""
+    pv = getattr(v, "_pview", None)
+    if pv is None:
+        pv = ("s" if v.signed else "") + ("r" if v.long else "w")
+    return pv
+
+
+def reg_long(v):
+    return reg_view(v) in ("r", "sr", "x")
+
+
+def reg_signed(v):
+    return reg_view(v) in SIGNED_VIEWS
 
 
 def pre_holds(j, regs, vars_, W, mem=None):
@@ -647,5 +751,51 @@ def gen_special(rng):
     else:
         e = [rng.choice(["<<", ">>"]), any_leaf(), ["c", rng.choice([0, 1, 31, 32, 33, 63, 64, -1])]]
     dk = rng.choice(DEST_KINDS)
+    prog["stmts"] = [["set", pick_dest(rng, prog, dk), e]]
+    return prog
+
+
+def typed_operand(rng, prog, leaf=None):
+    """operands whose SIGNEDNESS is decided by an operator rule rather than by one leaf: register +- int in every
+    spelling (Sum objects: signed register with a non-negative number, unsigned register with a negative one, chains that
+    merge their numbers to another sign), & of signed / mixed / constant operands, differences of unsigned operands, unary
+    minus and abs -- the shapes on which a wrong typing rule shows as a logical shift or an unsigned jump"""
+    regs = [k for k in prog["owned"] if k < 10 and k != 7] or [1]
+    reg = lambda views: [rng.choice(views), rng.choice(regs)]
+    num = lambda: ["c", rng.choice([0, 1, 1, 3, 8, 100, -1, -8, -100, 2**31, -2**31])]
+    other = leaf or (lambda: pick_leaf(rng, prog, rng.choice([k for k in LEAF_KINDS if k != "c"])))
+    t = rng.randrange(12)
+    if t == 0:
+        return [rng.choice("+-"), reg(["sr"]), ["c", rng.choice([0, 1, 3, 8, 100])]]          # signed register, number >= 0
+    if t == 1:
+        return [rng.choice("+-"), reg(["sr", "r"]), num()]
+    if t == 2:
+        return [rng.choice("+-"), [rng.choice("+-"), reg(["sr", "r", "r"]), num()], num()]    # the numbers are merged
+    if t == 3:
+        return ["+", num(), [rng.choice("+-"), reg(["sr", "r"]), num()]]                       # int + Sum
+    if t == 4:
+        return ["&", reg(["sr", "sw"]), reg(["sr", "sw"])]                                     # both signed
+    if t == 5:
+        return ["&", reg(["sr", "sw"]), ["c", rng.choice([-1, -2, -8, -256, -2**31])]]         # signed & negative mask
+    if t == 6:
+        return ["&", rng.choice([reg(["sr", "sw"]), other()]), rng.choice([reg(["r", "w"]), ["c", rng.choice([1, 0xff, 2**31])]])]
+    if t == 7:
+        return ["-", reg(["r", "w"]), rng.choice([reg(["r", "w"]), ["c", rng.choice([1, 5, 100])]])]   # unsigned difference
+    if t == 8:
+        return [rng.choice(["neg", "abs"]), rng.choice([reg(list(VIEWS)), other()])]
+    if t == 9:
+        return [rng.choice(["+", "-", "|", "^", "*"]), ["&", reg(["sr"]), reg(["sr"])], reg(["r", "sr"])]
+    if t == 10:
+        return ["-", [rng.choice("+-"), reg(["sr", "r"]), num()], other()]                     # Sum - expression
+    return [rng.choice(["+", "-", "*", "|", "^"]), other(), other()]
+
+
+def gen_typing(rng):
+    """`dest = X >> n` (and X // n, X % n) with X a `typed_operand`: the result depends on the typing of X"""
+    prog = base_prog(rng, 3, kinds=rng.choice(["l", "lg"]))
+    x = typed_operand(rng, prog)
+    n = ["c", rng.choice([0, 1, 1, 3, 8, 31])]
+    e = [">>", x, n] if rng.random() < 0.85 else [rng.choice(RING), [">>", x, n], pick_leaf(rng, prog, rng.choice(LEAF_KINDS))]
+    dk = rng.choice(["r", "sr", "vQ", "vq", "r", "sr", "w", "sw", "vi"])
     prog["stmts"] = [["set", pick_dest(rng, prog, dk), e]]
     return prog
